@@ -228,9 +228,7 @@ def run(ctx):
     json.dump([len(d["toks"]) for d in docs], open(docs_json, "w"))
     env = {"VERIF_C27_DOCS": docs_json, "VERIF_C27_SEED": ctx.seed}
 
-    r = ctx.tlc("PolicyFront", "MC_PolicyFront_thorough.cfg" if ctx.thorough else "MC_PolicyFront.cfg",
-                timeout=1500, env=env)
-    ctx.require_actions(r, ["Grow", "Mutate"])
+    r = ctx.tlc("PolicyFront", "MC_PolicyFront.cfg", timeout=1500, env=env, coverage=False)   # vacuity: per-family cell counts below
     tb = None
     for p in r.prints:
         if p.startswith("TABLES "):
@@ -239,10 +237,9 @@ def run(ctx):
         raise verif.ToolError("PolicyFront did not print its tables")
     cells = list(r.replays)
     r2 = ctx.tlc("PolicyFront", "MC_PolicyFront_repo_thorough.cfg" if ctx.thorough else "MC_PolicyFront_repo.cfg",
-                 timeout=1500, env=env)
-    ctx.require_actions(r2, ["MutateRepo"])
+                 timeout=1500, env=env, coverage=False)
     cells += r2.replays
-    sim_n = max(1, (60 if ctx.thorough else 6) // ctx.tlc_workers)
+    sim_n = max(1, (400 if ctx.thorough else 8) // ctx.tlc_workers)
     r3 = ctx.tlc("PolicyFront", "MC_PolicyFront_sim.cfg", simulate=sim_n, depth=5, timeout=900,
                  coverage=False, env=env)
     seen = set()
